@@ -171,12 +171,15 @@ CLAIMED = {
         text='Partial. Proved for the generated grid kernels (Mesh2D._grid_faces / _grid_vertices, translated from the source on every '
              'run) for every grid size: face and vertex lists equal the closed form; face number i*ny+j has indices (c, c+ny+1, c+ny+2, '
              'c+1) with c = i(ny+1)+j and vertex number i(ny+1)+j lies at base + (i dx, j dy), so every face is the dx x dy cell (i,j), '
-             'all cells are congruent and there are nx*ny of them. Searched: from_grid / from_polygon_grid / Face3D.mesh_grid (star, comb '
+             'all cells are congruent and there are nx*ny of them; for the hand model MeshOps.v of _remove_vertices / _remove_faces_only / '
+             '_transfer_face_centroids_areas (run against Mesh2D/3D.remove_vertices and remove_faces_only): a surviving face references the '
+             'same points as before, a face survives exactly when all its vertices do, per-face data filtered by the face pattern stays '
+             'aligned with the surviving faces. Searched: from_grid / from_polygon_grid / Face3D.mesh_grid (star, comb '
              'and holed shapes in rational planes, cell sizes 1/40..2x the extent, offsets, flip, centroids on/off) - congruent cells '
              'of the exactly computed adjusted size, corners inside the source shape (exact rational containment), reported areas / '
              'centroids / normals equal recomputed ones, normal direction; random removal patterns and triangulation keep per-face '
              'data aligned; OBJ round trips exact and ASCII STL round trips to 1e-6 for triangle, quad and mixed meshes.',
-        note='Partial: inside filtering, removal and file I/O are validated, not proved; mesh colours are not exercised (ladybug.color '
+        note='Partial: inside filtering and file I/O are validated, not proved; removal is proved for a hand model; mesh colours are not exercised (ladybug.color '
              'is absent here). Trusted: Coq kernel, py2coq, harness oracles.',
         technique=T_Q),
     'C09': dict(
